@@ -44,6 +44,8 @@ TRUSTED_BASE = [
     "hand-written Gallina models under /verif/coq/Model tied to /repo/src by the correspondence run of this check",
     "the Python harness (/verif/harness): case generators, drivers of the real tickit classes, virtual-time asyncio loop, renderer to Gallina literals, parser of the (index, reason codes) list printed by coqc",
     "constants translator harness/gen_consts.py (Python ast, fail-closed) -> coq/Gen/SourceConsts.v",
+    "function translator harness/gen_funs.py (Python ast -> Gallina over Model/PyLib.v, fail-closed per function) -> coq/Gen/SourceFuns.v; "
+    "Proofs/Gen*P.v prove the generated definitions equal to the model functions",
     "CPython 3.12 / asyncio semantics (run-to-completion between suspensions, FIFO ready queue)",
 ]
 
@@ -114,6 +116,9 @@ def build_coq(log=None) -> dict:
         import gen_consts
 
         consts = gen_consts.regenerate()
+        import gen_funs
+
+        gen_funs.main()       # Gen/SourceFuns.v: an untranslatable function leaves its definition out (fail-closed per function)
         proj = COQ / "_CoqProject"
         mk = COQ / "Makefile"
         if not mk.exists() or mk.stat().st_mtime < proj.stat().st_mtime:
